@@ -338,7 +338,7 @@ class Check(PropertyCheck):
             "decode -> re-encode with interleaved noise on other bodies), 30% random ops, 10% raw random bytes. distinct = "
             "distinct history; non-trivial = at least one non-identity codec call or cache hit.")
     budget = {"quick": 4000, "thorough": 120000}
-    time_budget = {"quick": 30, "thorough": 500}
+    time_budget = {"quick": 25, "thorough": 500}
     fingerprints = ["mitmproxy.net.encoding:decode", "mitmproxy.net.encoding:encode", "mitmproxy.net.encoding:identity",
                     "mitmproxy.net.encoding:decode_gzip", "mitmproxy.net.encoding:encode_gzip",
                     "mitmproxy.net.encoding:decode_deflate", "mitmproxy.net.encoding:encode_deflate",
@@ -349,9 +349,12 @@ class Check(PropertyCheck):
     trusted_base = ["zlib / gzip / brotli / zstd libraries: assumed to satisfy the Codecs laws stated in Model/C31.lean "
                     "(sampled on every run by the reference-decoder oracle, not proved)",
                     "Python codecs registry behaviour for non-custom names enters the model as the supplied `fresh` result"]
-    parallel = True
+    parallel = True          # thorough tier only, see setup(): the fork pool costs more than it saves on 4 000 histories
 
     _memo = (None, None)
+
+    def setup(self, tier):
+        self.parallel = tier == "thorough"
 
     # ---------------- (T) tables from the live source ----------------
     def translate(self):
@@ -694,7 +697,7 @@ class Check(PropertyCheck):
             if r["need"] != "-":
                 nm = unhx(r["need"].split(":")[1]).decode()
                 out.add(f"kind:{kind_of(nm)}")
-                hit = not r["called"] and r["res"] not in ("verr", "terr") and not (o == "mdec" and not _raw_of(r["before"][op["i"]]))
+                hit = not r["called"]           # a call was named but the real code did not make it: served from the cache
                 out.add(f"{r['need'][0]}:{'hit' if hit else 'miss'}")
                 if hit and o in ("enc", "set", "menc") and self._lenient(case, obs, k): out.add("finding:F-C31a")
             if o in ("set", "menc") and r["before"][op["i"]].split(",")[2] == "1": out.add("assign:with-TE")
